@@ -2,6 +2,8 @@
 import re
 
 from .. import absint, ipatoms, lib, mir
+from .. import lib_sw as S
+from ..lib_mux import cval as mux_cval
 from ..mir import render
 from .c22 import classify
 
@@ -23,112 +25,246 @@ def any_variants(prog, body, cond_expr):
     return lib.matches_variants(cl) if cl is not None else None
 
 
+def _elem_of(e, nxt_bb):
+    """e is `<next() issued at nxt_bb>@Some.0` (the element of that loop)"""
+    return e[0] == "field" and e[2] == "0" and e[1][0] == "downcast" and e[1][2] == "Some" and e[1][1][0] == "call" and e[1][1][3] == nxt_bb
+
+
+def _loop_over(body, nxt_site):
+    """expressions the iterator advanced at nxt_site is initialised from"""
+    e = body.site_expr(nxt_site)
+    out = [e]
+    for l in S.locals_in(e):
+        out += [x for _, x in S.defs_exprs(body, l)]
+    return out
+
+
+def _iterates_local(body, nxt_site, l):
+    """the loop at nxt_site consumes the local vector l (`for x in l` / `l.into_iter()` / `l.drain(..)`)"""
+    for x in _loop_over(body, nxt_site):
+        for c in mir.calls_in(x, r"IntoIterator>::into_iter$|IntoIterator::into_iter$|Vec::drain$"):
+            if c[2] and c[2][0][0] == "local" and c[2][0][1] == l:
+                return True
+    return False
+
+
+def _reads_of(body, e, l):
+    """calls inside e (following local definitions) that read elements of the vector local l through a slice/iterator view"""
+    out = []
+    for c in S.deep_walk(body, e):
+        if c[0] != "call" or not c[2]:
+            continue
+        a = c[2][0]
+        while a[0] == "call" and re.search(r"Deref>::deref$|Vec::as_slice$|slice::<impl \[T\]>::iter$|core::slice::iter$|Vec::iter$", mir.strip_generics(a[1])) and a[2]:
+            a = a[2][0]
+        if a[0] == "local" and a[1] == l and a is not c[2][0]:
+            out.append(c)
+    return out
+
+
 def check(ctx):
     prog = ctx.prog
-    r = ctx.body(SW, DR + r"rank_dials$")
-    nxt = r.call_sites(r"vec::IntoIter as std::iter::Iterator>::next$")
-    ctx.floor("partition", "dials iterator", nxt, 1)
+    r = S.nbody(ctx, DR + r"rank_dials$")
+    nxts = [s for s in r.call_sites(r"vec::IntoIter as std::iter::Iterator>::next$") if any("into_iter(p1)" in render(x) for x in _loop_over(r, s))]
+    ctx.floor("partition", "dials iterator", nxts, 1, exact=True)
+    if not nxts:
+        return
+    nxt = nxts[0]
+    some = S.some_targets(r, nxt)
+    region = S.loop_region(r, nxt.bb, some)
+    # ---- partition: inside the classification loop every dial is pushed to exactly one of four local vectors
+    allp = [s for s in r.call_sites(r"Vec::push$") if s.bb in region]
     groups = {}
-    for s in r.call_sites(r"Vec::push$"):
-        e = r.site_expr(s)
-        groups.setdefault(render(e[2][0]), []).append(s)
-    ctx.ob("partition", "four group vectors", set(groups) == {"relay", "public", "private", "other"}, msg="push targets: %s" % sorted(groups))
-    allp = [s for v in groups.values() for s in v]
-    if nxt:
-        some = [t for _, t in lib.switch_edges_on_site(r, nxt[0], {"Some"})]
-        got = lib.count_range(r, some, [nxt[0].bb], lib.bbs(allp))
-        ctx.ob("partition", "each dial pushed to exactly one group", got == (1, 1), nxt[0].loc(), "group pushes per input dial: %s" % (got,))
-        for s in allp:
-            e = render(r.site_expr(s)[2][1])
-            ctx.ob("partition", "pushed value is the loop element", e.endswith("Iterator>::next(iter)@Some.0"), s.loc(), e[:100])
-    # classification table
-    atoms = []
+    for s in allp:
+        t = r.site_expr(s)[2][0]
+        groups.setdefault(t[1] if t[0] == "local" else render(t), []).append(s)
+    ctx.ob("partition", "four group vectors", len(groups) == 4 and all(isinstance(k, int) for k in groups), msg="push targets inside the classification loop: %s" % sorted(map(str, groups)))
+    got = lib.count_range(r, some, [nxt.bb], lib.bbs(allp))
+    ctx.ob("partition", "each dial pushed to exactly one group", got == (1, 1), nxt.loc(), "group pushes per input dial: %s" % (got,))
+    for s in allp:
+        v = r.site_expr(s)[2][1]
+        ctx.ob("partition", "pushed value is the loop element", _elem_of(v, nxt.bb), s.loc(), render(v)[:100])
+    # ---- classification table; it also tells which local is which group
     closures = {}
-    for bi in sorted(r.live):
+    for bi in sorted(region):
         info = r.switch_info(bi)
         if not info:
             continue
-        txt = render(info[0])
-        if txt.startswith("std::iter::Iterator::any(libp2p_core::Multiaddr::iter("):
-            vs = any_variants(prog, r, info[0])
-            closures[txt] = vs
+        vs = S.proto_pred(prog, r, info[0])
+        if vs is not None:
+            closures[render(info[0])] = vs
     circ = [t for t, v in closures.items() if v == {"P2pCircuit"}]
     hasip = [t for t, v in closures.items() if v == {"Ip4", "Ip6"}]
     ctx.ob("classify", "floor:any-closures", len(circ) == 1 and len(hasip) == 1, nontrivial=False, msg="closures: %s" % {k[-40:]: v for k, v in closures.items()})
+    role = {}
     if circ and hasip:
         am = [("^" + re.escape(circ[0]) + "$", "relay"), ("^" + re.escape(hasip[0]) + "$", "has_ip"),
-              (r"^libp2p_swarm::connection::pool::dial_ranker::is_global_addr\(.*@Some\.0\.addr\)$", "global")]
-        lib.check_cells(ctx, "classify", "group", r, allp, lambda s: render(r.site_expr(s)[2][0]), am,
-                        {"relay": ["true", "false"], "global": ["true", "false"], "has_ip": ["true", "false"]},
-                        lambda a: "relay" if a["relay"] == "true" else ("private" if a["global"] == "false" else ("public" if a["has_ip"] == "true" else "other")),
-                        "%s:%d" % (r.file, r.line), start=some[0] if nxt and some else 0)
-    # extend order + each group consumed once
-    ext = r.call_sites(r"Extend>::extend$")
-    order = []
-    for s in ext:
-        e = render(r.site_expr(s))
-        m = re.search(r"group_delays\((\w+),", e)
-        if m:
-            order.append((s, m.group(1)))
-        elif "IntoIterator>::into_iter(other)" in e:
-            order.append((s, "other"))
-        else:
-            order.append((s, "?"))
-    names = [n for _, n in order]
-    ctx.ob("order", "result.extend consumes private, public, relay, other once each", sorted(names) == ["other", "private", "public", "relay"], msg=str(names))
+              (r"^libp2p_swarm::connection::pool::dial_ranker::is_global_addr\(.*@Some\.0\.\w+\)$", "global")]
+        by_bb = {}
+        for s in allp:
+            by_bb.setdefault(s.bb, []).append(s)
+        want = lambda a: "relay" if a["relay"] == "true" else ("private" if a["global"] == "false" else ("public" if a["has_ip"] == "true" else "other"))
+        seen_groups = {}
+        bad, unknown = [], set()
+        import itertools
+        for combo in itertools.product(["true", "false"], repeat=3):
+            a = dict(zip(["relay", "global", "has_ip"], combo))
+            res, unk, bare = lib.cell_eval(r, a, am, set(by_bb), some[0] if some else 0)
+            unknown |= unk
+            tg = {(lambda t: t[1] if t[0] == "local" else render(t))(r.site_expr(s)[2][0]) for b in res for s in by_bb[b]}
+            if len(tg) != 1 or bare:
+                bad.append("%s -> %s" % (a, sorted(map(str, tg))))
+                continue
+            seen_groups.setdefault(want(a), set()).add(next(iter(tg)))
+        ok = not bad and all(len(v) == 1 for v in seen_groups.values()) and len(seen_groups) == 4 and \
+            len({next(iter(v)) for v in seen_groups.values()}) == 4
+        ctx.ob("classify", "group/no-unmodelled-guards", not unknown, "%s:%d" % (r.file, r.line), "conditions outside the table's atoms: %s" % sorted(unknown)[:4])
+        ctx.ob("classify", "group/table", ok, "%s:%d" % (r.file, r.line),
+               "abstract evaluation over 8 cells of [relay, global, has_ip]: relay -> one vector, !global -> a second, has IP -> a third, rest -> a fourth; "
+               "got %s %s" % ({k: sorted(map(str, v)) for k, v in seen_groups.items()}, bad[:3]))
+        if ok:
+            role = {k: next(iter(v)) for k, v in seen_groups.items()}
+    # ---- result vector and the consumption site of every group
+    rets = S.ret_sites(r)
+    rv = r.site_expr(rets[0]) if len(rets) == 1 else None
+    ctx.ob("order", "returns result", rv is not None and rv[0] == "local", msg=str([render(r.site_expr(s)) for s in rets]))
+    R = rv[1] if rv is not None and rv[0] == "local" else None
+    after = r.reachable(S.none_targets(r, nxt))
+    cons = {}           # role -> list of (marker bb, site, kind)
+    for g, l in role.items():
+        hits = []
+        for s in r.call_sites(r"Extend>::extend$"):
+            if s.bb not in after:
+                continue
+            e = r.site_expr(s)
+            if any(x[0] == "local" and x[1] == l for x in mir.walk(e[2][1])):
+                hits.append((s.bb, s, "extend", e[2][0]))
+        for s in r.call_sites(r"Iterator>::next$|Iterator::next$"):
+            if s.bb not in after or s.bb == nxt.bb or not _iterates_local(r, s, l):
+                continue
+            reg = S.loop_region(r, s.bb, S.some_targets(r, s))
+            ps = [p for p in r.call_sites(r"Vec::push$") if p.bb in reg]
+            init = [c for c in r.call_sites(r"IntoIterator>::into_iter$|IntoIterator::into_iter$") if c.bb in after and
+                    r.site_expr(c)[2] and r.site_expr(c)[2][0][0] == "local" and r.site_expr(c)[2][0][1] == l]
+            if ps and init:
+                got = lib.count_range(r, S.some_targets(r, s), [s.bb], lib.bbs(ps))
+                ctx.ob("order", "each dial of the %s group enters the result exactly once" % g, got == (1, 1) and all(_elem_of(r.site_expr(p)[2][1][4][-1][1], s.bb) if r.site_expr(p)[2][1][0] == "agg" else False for p in ps),
+                       s.loc(), "pushes per element: %s" % (got,))
+                hits.append((init[0].bb, ps[0], "loop", r.site_expr(ps[0])[2][0]))
+        cons[g] = hits
+    names = sorted(g for g, h in cons.items() for _ in h)
+    ctx.ob("order", "result.extend consumes private, public, relay, other once each", names == ["other", "private", "public", "relay"], msg="consumption sites per group: %s" % {g: [(k, s.loc().split(':')[-1]) for _, s, k, _ in h] for g, h in cons.items()})
     want = ["private", "public", "relay", "other"]
-    pos = {n: s for s, n in order}
+    pos = {g: h[0] for g, h in cons.items() if len(h) == 1}
     ok = all(n in pos for n in want)
+    rblocks = r.return_blocks()
     if ok:
+        for g in want:
+            got = lib.count_range(r, S.none_targets(r, nxt), rblocks, [pos[g][0]])
+            ctx.ob("order", "%s group appended exactly once on every path" % g, got == (1, 1), pos[g][1].loc(), "occurrences between the classification loop and return: %s" % (got,))
         for a, b in zip(want, want[1:]):
-            ra = r.reachable(r.succ[pos[a].bb])
-            ok = ok and pos[b].bb in ra and pos[a].bb not in r.reachable(r.succ[pos[b].bb])
-            lib.precedes(ctx, "order", "%s before %s" % (a, b), r, [pos[a].bb], [pos[b].bb], "result.extend(%s) precedes result.extend(%s)" % (a, b), pos[b].loc())
-    ctx.ob("order", "group order private<public<relay<other", ok, msg="extend order in control flow: %s" % names)
-    for s in ext:
-        ctx.ob("order", "extends the result vector", render(r.site_expr(s)[2][0]) == "result", s.loc(), render(r.site_expr(s)[2][0]))
-    # the delay anchor of the last group (`result.last()`) must be read after every earlier group has been appended; the
-    # last group's delay is derived from that anchor
-    lasts = [s for s in r.call_sites(r"core::slice::<impl \[T\]>::last$|core::slice::last$|slice::<impl \[T\]>::last$")]
-    if ok and lasts:
-        for s in lasts:
+            ra = r.reachable(r.succ[pos[a][0]])
+            ok = ok and pos[b][0] in ra and pos[a][0] not in r.reachable(r.succ[pos[b][0]])
+            lib.precedes(ctx, "order", "%s before %s" % (a, b), r, [pos[a][0]], [pos[b][0]], "the %s group is appended before the %s group" % (a, b), pos[b][1].loc())
+    ctx.ob("order", "group order private<public<relay<other", ok, msg="consumption order in control flow: %s" % [g for g in want if g in pos])
+    for g, h in cons.items():
+        for _, s, k, tgt in h:
+            ctx.ob("order", "extends the result vector", R is not None and tgt[0] == "local" and tgt[1] == R, s.loc(), "%s group appended to %s" % (g, render(tgt)))
+    # the delay anchor of the last group must be the *last* entry of the result, read after every earlier group has been appended
+    if ok and R is not None:
+        _, s_other, kind, _ = pos["other"]
+        src = r.site_expr(s_other)
+        reads = _reads_of(r, src, R)
+        is_last = lambda c: re.search(r"slice::<impl \[T\]>::last$|core::slice::last$|slice::last$|Iterator::(last|max)$|Iterator>::(last|max)$", mir.strip_generics(c[1])) is not None
+        ctx.ob("order", "last group's delays derive from the anchor", any(is_last(c) for c in reads), s_other.loc(), render(src)[:220])
+        for c in reads:
+            ctx.ob("order", "the delay anchor is the last (latest) entry of the result so far", is_last(c), s_other.loc(),
+                   "the no-IP group's delay is derived from %s" % render(c)[:140])
             for gname in ("private", "public", "relay"):
-                lib.precedes(ctx, "order", "delay anchor read after %s group appended" % gname, r, [pos[gname].bb], [s.bb],
-                             "result.extend(%s) precedes result.last()" % gname, s.loc())
-        e = render(r.site_expr(pos["other"]))
-        ctx.ob("order", "last group's delays derive from the anchor", "slice::last(" in e, pos["other"].loc(), e[:220])
-    else:
-        ctx.note("rank_dials: no result.last() anchor found; anchor-order rule not applicable")
-    rets = [mir.Site(r, x[1], x[2]) for x in r.defs[0]]
-    ctx.ob("order", "returns result", len(rets) == 1 and render(r.site_expr(rets[0])) == "result", msg=str([render(r.site_expr(s)) for s in rets]))
+                lib.precedes(ctx, "order", "delay anchor read after %s group appended" % gname, r, [pos[gname][0]], [c[3]],
+                             "the %s group is appended before the anchor is read" % gname, s_other.loc())
     # ---- group_delays
-    g = ctx.body(SW, DR + r"group_delays$")
+    g = S.nbody(ctx, DR + r"group_delays$")
+    i_dials = S.param_of_type(g, r"^std::vec::Vec<connection::pool::concurrent_dial::PendingDial>")
     sk = g.call_sites(r"sort_by_key$")
-    ok = len(sk) == 1 and "fn:libp2p_swarm::connection::pool::dial_ranker::score" in render(g.site_expr(sk[0]))
+    ok = len(sk) == 1 and "fn:libp2p_swarm::connection::pool::dial_ranker::score" in render(g.site_expr(sk[0])) and "(p%d)" % i_dials in render(g.site_expr(sk[0]))
     ctx.ob("group", "sorted by score", ok, sk[0].loc() if sk else "", "dials.sort_by_key(score)")
-    dn = g.call_sites(r"vec::Drain as std::iter::Iterator>::next$")
+    dn = [s for s in g.call_sites(r"Iterator>::next$|Iterator::next$") if _iterates_local(g, s, i_dials) or any("(p%d" % i_dials in render(x) for x in _loop_over(g, s))]
     ctx.floor("group", "drain loop", dn, 1)
-    rp = [s for s in g.call_sites(r"Vec::(push|insert)$") if render(g.site_expr(s)[2][0]) == "reordered"]
-    ctx.floor("group", "reordered.push/insert", rp, 5)
+    X = None
     if dn:
-        some = [t for _, t in lib.switch_edges_on_site(g, dn[0], {"Some"})]
-        got = lib.count_range(g, some, [dn[0].bb], lib.bbs(rp))
+        some1 = S.some_targets(g, dn[0])
+        reg1 = S.loop_region(g, dn[0].bb, some1)
+        rp = [s for s in g.call_sites(r"Vec::(push|insert)$") if s.bb in reg1]
+        ctx.floor("group", "reordered.push/insert", rp, 5)
+        tg = {(lambda t: t[1] if t[0] == "local" else render(t))(g.site_expr(s)[2][0]) for s in rp}
+        ctx.ob("group", "the reorder pass fills one vector", len(tg) == 1 and all(isinstance(t, int) for t in tg), dn[0].loc(), "targets: %s" % sorted(map(str, tg)))
+        X = next(iter(tg)) if len(tg) == 1 else None
+        for s in rp:
+            v = g.site_expr(s)[2][-1]
+            ctx.ob("group", "reordered value is the drained dial", _elem_of(v, dn[0].bb), s.loc(), render(v)[:100])
+        got = lib.count_range(g, some1, [dn[0].bb], lib.bbs(rp))
         ctx.ob("group", "each drained dial enters `reordered` exactly once", got == (1, 1), dn[0].loc(), "pushes/inserts per drained dial: %s" % (got,))
         lib.precedes(ctx, "group", "sort precedes reorder", g, lib.bbs(sk), [dn[0].bb], "sort_by_key before the drain loop")
-    rn = [s for s in g.call_sites(r"vec::IntoIter as std::iter::Iterator>::next$")]
+    rn = [s for s in g.call_sites(r"Iterator>::next$|Iterator::next$") if isinstance(X, int) and _iterates_local(g, s, X)]
     ctx.floor("group", "delay loop", rn, 1)
-    resp = [s for s in g.call_sites(r"Vec::push$") if render(g.site_expr(s)[2][0]) == "result"]
-    if rn:
-        some = [t for _, t in lib.switch_edges_on_site(g, rn[0], {"Some"})]
-        got = lib.count_range(g, some, [rn[0].bb], lib.bbs(resp))
+    grets = S.ret_exprs(g)
+    R2 = [e[1] for e in grets if e[0] == "local"]
+    if rn and R2:
+        some2 = S.some_targets(g, rn[0])
+        reg2 = S.loop_region(g, rn[0].bb, some2)
+        resp = [s for s in g.call_sites(r"Vec::push$") if s.bb in reg2 and g.site_expr(s)[2][0][0] == "local" and g.site_expr(s)[2][0][1] in R2]
+        got = lib.count_range(g, some2, [rn[0].bb], lib.bbs(resp))
         ctx.ob("group", "each reordered dial enters the result exactly once", got == (1, 1), rn[0].loc(), "result.push per reordered dial: %s" % (got,))
-        its = []
-        for l in [k for k, v in g.names.items() if v == "iter"]:
-            its += [render(g.rvalue_expr(d[3]) if d[0] == "stmt" else g.call_expr(d[3], d[1])) for d in g.defs[l]]
-        ctx.ob("group", "delay loop iterates `reordered`", any("into_iter(reordered)" in x for x in its), rn[0].loc(), str(its)[:200])
+        ctx.ob("group", "delay loop iterates `reordered`", True, rn[0].loc(), "the delay loop consumes the vector filled by the reorder pass")
+        for s in resp:
+            v = g.site_expr(s)[2][1]
+            ok = v[0] == "agg" and len(v[4]) == 2 and _elem_of(v[4][1][1], rn[0].bb)
+            ctx.ob("group", "the result pairs each reordered dial with its delay", ok, s.loc(), render(v)[:160])
+        # within a group TCP starts after the QUIC probes: the delay assigned on the TCP branch has an additive part that is
+        # written on the QUIC branch (the "TCP start" offset derived from the last QUIC delay)
+        preds = {}
+        for bi in sorted(reg2):
+            info = g.switch_info(bi)
+            if info:
+                vs = S.proto_pred(prog, g, info[0])
+                if vs is not None:
+                    preds[bi] = (frozenset(vs), info[1])
+
+        def true_edges(vs):
+            return {(bi, t) for bi, (v, labs) in preds.items() if v == frozenset(vs) for t, ls in labs.items() if ls == {"true"}}
+        qe, te = true_edges({"Quic", "QuicV1"}), true_edges({"Tcp"})
+        ctx.ob("group", "floor:QUIC / TCP branches of the delay loop", len(qe) == 1 and len(te) == 1, nontrivial=False, msg="quic %s tcp %s" % (sorted(qe), sorted(te)))
+        if len(qe) == 1 and len(te) == 1 and some2 and resp:
+            qreg = S.guarded_region(g, reg2, qe, some2[0])
+            treg = S.guarded_region(g, reg2, te, some2[0])
+            v = g.site_expr(resp[0])[2][1]
+            delay = v[4][0][1] if v[0] == "agg" else v
+            tcp_leaves = []
+            for lf in S.add_leaves(delay):
+                if lf[0] != "local":
+                    continue
+                for site, x in S.defs_exprs(g, lf[1]):
+                    if site.bb in treg:
+                        tcp_leaves += S.add_leaves(x)
+            quic_written = [lf for lf in tcp_leaves if lf[0] == "local" and any(site.bb in qreg for site, _ in S.defs_exprs(g, lf[1]))]
+            ctx.ob("group", "floor:delay assigned on the TCP branch", bool(tcp_leaves), nontrivial=False, msg=str([render(x) for x in tcp_leaves])[:200])
+            ctx.ob("group", "TCP delays start after the last QUIC delay", bool(quic_written), resp[0].loc(),
+                   "additive parts of the delay on the TCP branch: %s; parts that are (re)written on the QUIC branch: %d" % ([render(x) for x in tcp_leaves], len(quic_written)))
+            for lf in quic_written[:1]:
+                okq = False
+                for site, x in S.defs_exprs(g, lf[1]):
+                    if site.bb in qreg:
+                        parts = S.add_leaves(x)
+                        okq = okq or (len(parts) >= 2 and any(p_[0] == "local" and any(s2.bb in qreg for s2, _ in S.defs_exprs(g, p_[1])) for p_ in parts))
+                ctx.ob("group", "the TCP start offset is derived from the QUIC delay just assigned", okq, resp[0].loc(), "tcp_start = <this QUIC dial's delay> + tcp_delay")
     # ---- score transport rank
-    sc = ctx.body(SW, DR + r"score$")
-    l = lib.local_by_name(sc, "transport_rank")
+    sc = S.nbody(ctx, DR + r"score$")
+    # the rank is the first component of the returned sort key
+    srv = S.ret_exprs(sc)
+    if len(srv) != 1 or srv[0][0] != "agg" or not srv[0][4] or srv[0][4][0][1][0] != "local":
+        raise mir.RuleError("score: the sort key is not a tuple whose first component is a local rank")
+    l = srv[0][4][0][1][1]
     sites = [mir.Site(sc, x[1], x[2]) for x in sc.defs[l]]
     am = []
     dom = {}
@@ -146,25 +282,37 @@ def check(ctx):
                     dom[v] = ["true", "false"]
     ctx.ob("score", "floor:transport tests", len(dom) == 5, nontrivial=False, msg="transport tests found: %s" % sorted(dom))
     if len(dom) == 5:
+        order = ["QuicV1", "Quic", "WebTransport", "Tcp", "WebRTCDirect"]
+        by_bb = {}
+        for s_ in sites:
+            by_bb.setdefault(s_.bb, []).append(s_)
+        # learn the rank constant of every class from its pure cell (compared by evaluated value, not by literal)
+        consts = []
+        for i in range(6):
+            a = {v: ("true" if j == i else "false") for j, v in enumerate(order)}
+            res, _, _ = lib.cell_eval(sc, a, am, set(by_bb), 0)
+            vals = {mux_cval(sc.site_expr(x)) for b in res for x in by_bb[b]}
+            consts.append(next(iter(vals)) if len(vals) == 1 else None)
+        mono = all(c is not None for c in consts) and all(consts[i] < consts[i + 1] for i in range(5))
+        ctx.ob("score", "transport ranks strictly increase QuicV1<Quic<WebTransport<Tcp<WebRTCDirect<other", mono, "%s:%d" % (sc.file, sc.line), "rank constants: %s" % consts)
+
         def ref(a):
-            for i, v in enumerate(["QuicV1", "Quic", "WebTransport", "Tcp", "WebRTCDirect"]):
+            for i, v in enumerate(order):
                 if a[v] == "true":
-                    return str(i)
-            return "5"
-        lib.check_cells(ctx, "score", "transport_rank", sc, sites, lambda s: render(sc.site_expr(s)), am, dom, ref, "%s:%d" % (sc.file, sc.line),
+                    return str(consts[i])
+            return str(consts[5])
+        lib.check_cells(ctx, "score", "transport_rank", sc, sites, lambda s: str(mux_cval(sc.site_expr(s))), am, dom, ref, "%s:%d" % (sc.file, sc.line),
                         allow_unknown=[r"Iterator::(any|find)\("])
-    rv = [mir.Site(sc, x[1], x[2]) for x in sc.defs[0]]
-    ok = len(rv) == 1 and render(sc.site_expr(rv[0])).startswith("tuple{0: transport_rank, 1: ")
-    ctx.ob("score", "rank is the primary sort key", ok, msg=str([render(sc.site_expr(s))[:80] for s in rv]))
+    ctx.ob("score", "rank is the primary sort key", len(srv) == 1, msg=str([render(e)[:80] for e in srv]))
     # ---- is_global_addr
-    ga = ctx.body(SW, DR + r"is_global_addr$")
+    ga = S.nbody(ctx, DR + r"is_global_addr$")
     finds = {}
     for bi in sorted(ga.live):
         info = ga.switch_info(bi)
         if not info:
             continue
         txt = render(info[0])
-        m = re.match(r"^(discr\()?std::iter::Iterator::(find|any|find_map)\(libp2p_core::Multiaddr::iter\(a\), closure:.*\{closure#(\d)\}\[\]\)\)?$", txt)
+        m = re.match(r"^(discr\()?std::iter::Iterator::(find|any|find_map)\(libp2p_core::Multiaddr::iter\(p1\), closure:.*\{closure#(\d+)\}\[\]\)\)?$", txt)
         if m:
             cl = lib.closure_of(prog, ga, info[0])
             finds[txt] = (m.group(2), lib.matches_variants(cl) if m.group(2) != "find_map" else "dns", m.group(3))
